@@ -57,7 +57,7 @@ def run_demo(wt, demo):
 def confirm(outdir, prop):
     meta = json.load(open(os.path.join(outdir, "meta.json")))
     for i, ch in enumerate(meta["changes"], 1):
-        sid = f"{prop}-{i}"
+        sid = f"{prop}-{i + int(os.environ.get('SEED_OFFSET', '0'))}"
         patch = os.path.join(outdir, ch["patch"])
         demo = os.path.join(outdir, ch["demo"])
         wt = worktree(f"/tmp/sv_{sid}")
